@@ -64,7 +64,7 @@ impl Monitor for C13 {
         ]
     }
     fn rule(&self) -> String {
-        "case = one generated history under any of 6 persist policies with rejected / no-op call shapes inserted at random points and whenever the write cursor is within 48 bytes of the end of the WAL file, in particular when the file is full to its last byte (8 shapes, on existing and non-existing queues); around each such call: (half of the time) persist(Flush) to drain buffers, snapshot + per-file content hash of the directory, the call, (if drained) a trailing persist(Flush), then: the syscall trace of the call itself is EMPTY (no write, no fsync, no open, no seek) and the trailing flush writes nothing, snapshot, disk_used_bytes and directory content unchanged, wal_bytes_written == 0; under OnDelay(2 ms) a quarter of the no-ops are preceded by a 3 ms sleep and followed by an effective append, which must flush (the no-op must not consume the persist that was due); with probability 1/3 an immediate restart must also reproduce the pre-call snapshot; evaluation = one such call; distinct_nontrivial = distinct (shape, policy, pre-call state digest)".into()
+        "case = one generated history under any of 8 persist policies with rejected / no-op call shapes inserted at random points and whenever the write cursor is within 48 bytes of the end of the WAL file, in particular when the file is full to its last byte (8 shapes, on existing and non-existing queues); around each such call: (half of the time) persist(Flush) to drain buffers, snapshot + per-file content hash of the directory, the call, (if drained) a trailing persist(Flush), then: the syscall trace of the call itself is EMPTY (no write, no fsync, no open, no seek) and the trailing flush writes nothing, snapshot, disk_used_bytes and directory content unchanged, wal_bytes_written == 0; under OnDelay(2 ms) a quarter of the no-ops are preceded by a 3 ms sleep and followed by an effective append, which must flush (the no-op must not consume the persist that was due); with probability 1/3 an immediate restart must also reproduce the pre-call snapshot; evaluation = one such call; distinct_nontrivial = distinct (shape, policy, pre-call state digest)".into()
     }
     fn run_case(&self, ctx: &Ctx, case: u64, acc: &mut Acc) {
         let parts = ctx.case_seed(case);
